@@ -131,6 +131,10 @@ func Report(t Failer, prop, oracle string, c any, v *Violation) {
 		rec.Known(id)
 		return
 	}
+	if v.Kind == "hang" {
+		// every re-evaluation of a hanging case costs the full timeout again: no shrinking, stop at once
+		abandon(prop, oracle, c, v)
+	}
 	rec.Violation()
 	path := writeReplay(prop, oracle, c, v)
 	t.Fatalf("VIOLATION property=%s replay=%s\nkind=%s\n%s", prop, path, v.Kind, v.Msg)
